@@ -142,6 +142,23 @@ Theorem C05_nackfrag_never_resends_the_requested_fragment :
       (n = div_ceil (blen p) (w_f w) -> ws = []).
 Proof. exact nackfrag_never_resends_requested. Qed.
 
+(* outside the classes C05-fragsize-zero-div (no hand-made fragments: op_ok) and
+   C05-nackfrag-bitmap-overflow (every sample has at most 256 fragments: small_op) no history panics *)
+Theorem C05_no_panic_outside_known_classes :
+  forall rel nreaders f ops,
+    0 < f < 65536 -> Forall op_ok ops -> Forall (small_op f) ops ->
+    exists s obs, run (s_init rel nreaders f) ops = Ok (s, obs).
+Proof. exact run_never_panics. Qed.
+
+(* the byte-identity oracle applied to the implementation's changes decides exactly the conclusion of
+   C05_delivered_changes_are_byte_identical (increasing sequence numbers, written payloads) *)
+Theorem C05_identity_oracle_sound :
+  forall ws ch prev,
+    identicalb ws prev ch = true <->
+    (StronglySorted Z.lt (prev :: map fst ch) /\
+     forall sn d, In (sn, d) ch -> nth_written ws sn = Some d).
+Proof. exact identicalb_sound. Qed.
+
 (* ------------------------------------------------------------------ the known classes are inhabited *)
 
 Theorem C05_witness_nackfrag_count_zero :
@@ -197,6 +214,8 @@ Print Assumptions C05_nackfrag_is_always_filtered.
 Print Assumptions C05_lost_fragment_is_never_repaired.
 Print Assumptions C05_nackfrag_resends_successor.
 Print Assumptions C05_nackfrag_never_resends_the_requested_fragment.
+Print Assumptions C05_no_panic_outside_known_classes.
+Print Assumptions C05_identity_oracle_sound.
 Print Assumptions C05_witness_nackfrag_count_zero.
 Print Assumptions C05_witness_nackfrag_off_by_one.
 Print Assumptions C05_witness_fragment_size_zero_panics.
